@@ -490,10 +490,46 @@ func (ex *Exec) assignPath(st *State, n ast.Node, base ast.Expr, path []int, v V
 		ex.storePath(st, n, ref.C[0], p.Elem(), path, v)
 		return
 	}
+	// element of a slice of structs: store only the components of the assigned field
+	if ix, ok := unparen(base).(*ast.IndexExpr); ok {
+		if sl, ok := ex.typeOf(ix.X).Underlying().(*types.Slice); ok {
+			if off, n2, ok := compRange(sl.Elem(), path); ok && n2 == len(v.C) {
+				x := ex.eval(st, ix.X)
+				i := ex.eval(st, ix.Index).term()
+				p := sliceParts(x)
+				ex.oblig(st, "index", ix, ex.exprStr(ix), And(Le(IntLit(0), i), Lt(i, p.len)))
+				cs := flatten(sl.Elem())
+				pos := Add(p.off, i)
+				for k := 0; k < n2; k++ {
+					name, h := st.elemHeap(sl.Elem(), cs[off+k])
+					st.heapSet(name, Store(h, p.arr, Store(Select(h, p.arr), pos, v.C[k])))
+				}
+				ex.mutCount++
+				return
+			}
+		}
+	}
 	// struct value: read-modify-write of the base location
 	cur := ex.eval(st, base)
 	nv := ex.updatePath(st, n, cur, path, v)
 	ex.assignTo(st, base, nv)
+}
+
+// compRange: component offset and count of the field reached by path inside struct type t
+// (value fields only; fails when the path crosses a pointer).
+func compRange(t types.Type, path []int) (int, int, bool) {
+	off := 0
+	for _, idx := range path {
+		stt, ok := t.Underlying().(*types.Struct)
+		if !ok || isOpaqueStruct(t) {
+			return 0, 0, false
+		}
+		for i := 0; i < idx; i++ {
+			off += len(flatten(stt.Field(i).Type()))
+		}
+		t = stt.Field(idx).Type()
+	}
+	return off, len(flatten(t)), true
 }
 
 func (ex *Exec) storePath(st *State, n ast.Node, ref *Term, structT types.Type, path []int, v Val) {
